@@ -10,6 +10,9 @@ import Proofs.Lemmas.C03ReadFloat
 import Proofs.Lemmas.C03Special
 import Proofs.Lemmas.C03ExactPath
 import Proofs.Lemmas.C03Lang4
+import Proofs.Lemmas.C03HexSpec
+import Proofs.Lemmas.C03Total
+import Proofs.Lemmas.C03Decimal
 import Model.Fmt.Reader
 
 namespace C03
@@ -256,7 +259,10 @@ theorem readFloat_language (s : Bytes) (hu : underscoreOK s = false) : recognise
   recognise_of_not_uok s hu
 
 example : Agrees (readFloat (Bytes.ofString "-1_2.50e+3")) ⟨true, false, 1250, 1⟩ 3 := by
-  refine ⟨by decide +kernel, by decide +kernel, by decide +kernel, by decide +kernel, fun _ => ⟨0, by decide +kernel, fun _ _ => by decide +kernel⟩⟩
+  refine ⟨by decide +kernel, by decide +kernel, by decide +kernel, by decide +kernel,
+    fun _ => ⟨0, by decide +kernel, fun _ _ => by decide +kernel⟩, fun h => ?_⟩
+  have : (readFloat (Bytes.ofString "-1_2.50e+3")).trunc = false := by decide +kernel
+  rw [this] at h; cases h
 
 /-! ## atof64exact -/
 
@@ -347,9 +353,23 @@ example : atof64exact 9 30 false = some (F64.ofDecimal false 9 30) := by decide 
 
 /-! ## atofHex -/
 
-/-- kernel-evaluated instances of `atofHex` against `F64.ofBinary` (the general statement
-`hex_path_correct` is NOT proved; the S layer compares the real `atofHex` with `ofBinary` and the
-range rule on thousands of generated (mantissa, exp) pairs per run): a tie rounding to even in
+/-- **hex_path_correct** — `atofHex(mantissa, exp, neg, trunc = false)` is the specification of a
+hex literal, for EVERY `uint64` mantissa, every exponent and sign: the normalising left shift,
+the right shift with sticky bit, the denormalising shift, "round using two bottom bits"
+(proved to be round-half-even of the exact value, `rne_of_stick`), the carry to 2^53, the
+denormal exponent, overflow, and the assembly of the bits together compute
+`F64.ofBinary neg mantissa exp` (ONE rounding of mantissa·2^exp); the range error is reported
+exactly when |value| ≥ 2^1024 − 2^970 (`roundMag_inf_iff`: the specification's range rule is
+"the rounding saturates"), and then the value is ±Inf. The three `for` loops are run on fuel
+64 in the model; that the fuel suffices is part of the proof (`normUp_spec`, `normDown_spec`,
+`denorm_spec`). `trunc = true` (more than 16 hex digits with a non-zero dropped digit) is
+covered by `atofHex_trunc_correct` and enters `parseFloat_correct`. -/
+theorem hex_path_correct (m : Nat) (e : Int) (neg : Bool) (hm : m < 2 ^ 64) :
+    (atofHex m e neg false).toExcept = Parsed.eval { neg := neg, hex := true, mant := m, exp := e } ∧
+    ((atofHex m e neg false).err = some .range → (atofHex m e neg false).val = F64.inf neg) :=
+  atofHex_spec m e neg hm
+
+/-- kernel-evaluated instances of `atofHex`: a tie rounding to even in
 both directions, the largest finite value, overflow, the smallest subnormal, underflow of a tie -/
 example : atofHex 0x10000000000001 (-4) false false = ⟨F64.ofBinary false 0x10000000000001 (-4), none⟩ := by decide +kernel
 example : atofHex 0x30000000000003 (-4) false false = ⟨F64.ofBinary false 0x30000000000003 (-4), none⟩ := by decide +kernel
@@ -359,6 +379,72 @@ example : atofHex 1 (-1074) false false = ⟨1, none⟩ := by decide +kernel
 example : atofHex 1 (-1075) false false = ⟨0, none⟩ := by decide +kernel
 example : atofHex 3 (-1075) false false = ⟨2, none⟩ := by decide +kernel
 example : atofHex 1 (-1075) false true = ⟨1, none⟩ := by decide +kernel
+
+/-! ## ParseFloat and the reader's atof as a whole -/
+
+/-- **parseFloat_correct** — the model of `bytesconv.ParseFloat(s, 64)` (underscore check →
+special values → `readFloat` → hex path / exact path / slow path) returns exactly what
+`parseFloatSpec` says — the same float bit for bit, or the same error — for every byte string
+
+* outside the class of finding N3 (more than 800 significant digits before the point),
+* whose exponent literal is below the clamp 10000.
+
+Composition of `readFloat_language`, `special_correct`, `readFloat_value`, `hex_path_correct`
+(and its extension to truncated mantissas: when `readFloat` dropped non-zero hex digits the true
+value lies strictly between mantissa and mantissa+1, `mantissa |= 1` makes that the sticky
+representation, and the same rounding argument applies — `atofHex_trunc_correct`),
+`exact_path_correct` and, for the slow path (which in the model IS the specification), the
+proof that the two "obvious overflow/underflow" exits of `floatBits` agree with the range rule
+and with the rounding of a tiny value to ±0 (`slowPath_spec`). -/
+theorem parseFloat_correct (s : Bytes) (hN3 : inClassN3 s = false) (hlit : expLit s < 10000) :
+    (parseFloat s).toExcept = parseFloatSpec s :=
+  parseFloat_eq_spec s hN3 hlit
+
+/-- **reader_atof_correct** — the same for the reader's `atof` (integer fast path, else
+`ParseFloat`) on every non-empty field. -/
+theorem reader_atof_correct (x : Bytes) (hne : x ≠ []) (hN3 : inClassN3 x = false) (hlit : expLit x < 10000) :
+    (readerAtof x).toExcept = parseFloatSpec x := by
+  cases h : atofLoop x 0 with
+  | some v => exact atof_fast_correct x hne v h
+  | none =>
+    unfold readerAtof
+    rw [h]
+    exact parseFloat_correct x hN3 hlit
+
+example : (parseFloat (Bytes.ofString "0x1.8p1")).toExcept = parseFloatSpec (Bytes.ofString "0x1.8p1") :=
+  parseFloat_correct _ (by decide +kernel) (by decide +kernel)
+
+/-- a hex literal with 20 digits (truncated mantissa) and a tie broken by the dropped digit -/
+example : (parseFloat (Bytes.ofString "0x1.00000000000008000001p0")).toExcept
+    = parseFloatSpec (Bytes.ofString "0x1.00000000000008000001p0") :=
+  parseFloat_correct _ (by decide +kernel) (by decide +kernel)
+
+/-! ## the decimal slow path: its rounding step -/
+
+/-- **roundedInteger_correct** — decimal.go `RoundedInteger` with `shouldRoundUp` (the last step of
+`floatBits`: after the decimal has been scaled so that its integer part is the 53-bit mantissa,
+"extract integer part, rounded appropriately") is round-half-even of the decimal's exact value:
+for a trimmed, untruncated decimal 0.d₁…dₙ·10^dp with 0 ≤ dp ≤ 19 the result is the exact
+integer when there is no fraction and `F64.rne digits 10^(n−dp)` otherwise — the very
+round-half-even `F64.roundMag` (hence the specification) is built from. The model
+(Model/Num/Decimal.lean) is tied to the real `RoundedInteger`/`shouldRoundUp` by `kind=rint`
+correspondence cases (export hook `VerifRoundedInteger`).
+
+NOT proved (`floatBits_correct`): the scaling loop of `floatBits` and the shift tables of
+decimal.go (`leftShift` with its `leftcheats`, `rightShift`) are not modelled; the real slow path
+as a whole is compared with the specification by K/S only. -/
+theorem roundedInteger_correct (a : Dec) (hd : a.d.all isDec = true) (htrim : a.d.getLast? ≠ some 48)
+    (h0 : 0 ≤ a.dp) (h19 : a.dp ≤ 19) (ht : a.trunc = false) :
+    roundedInteger a =
+      if a.d.length ≤ a.dp.toNat then valOf 10 a.d * 10 ^ (a.dp.toNat - a.d.length)
+      else F64.rne (valOf 10 a.d) (10 ^ (a.d.length - a.dp.toNat)) :=
+  roundedInteger_rne a hd htrim h0 h19 ht
+
+/-- 2.5 → 2, 3.5 → 4, 2.51 → 3, 0.5 → 0, 1.5 → 2 -/
+example : roundedInteger ⟨Bytes.ofString "25", 1, false⟩ = 2 ∧ roundedInteger ⟨Bytes.ofString "35", 1, false⟩ = 4 ∧
+    roundedInteger ⟨Bytes.ofString "251", 1, false⟩ = 3 ∧ roundedInteger ⟨Bytes.ofString "5", 0, false⟩ = 0 ∧
+    roundedInteger ⟨Bytes.ofString "15", 1, false⟩ = 2 ∧ roundedInteger ⟨Bytes.ofString "25", 1, true⟩ = 3 := by
+  decide +kernel
 
 /-! ## number errors become per-line syntax errors (reader.go:265-293) -/
 
